@@ -2,26 +2,92 @@ import USimModel.Prim.Task
 import USimModel.Gen.Scope
 /-!
 # C06 - task lifecycle: forward-only status, stable result, precise cancellation
-(for every sequence of start / finish / cancel / cancel-delivery / close actions)
+(for every sequence of start / finish / cancel / cancel-delivery / swallowed cancellation / close / end-of-clean-up actions)
 -/
 namespace USim.Prim.Task
 
-/-- **status only moves forward** -/
-theorem status_forward (s : TaskSt) (a : Act) : rank s ≤ rank (step s a) := by
-  cases a <;> simp only [step, rank, finalize]
-  all_goals (repeat' split) <;> simp_all
-
-/-- **the outcome never changes once set** -/
-theorem result_write_once (s : TaskSt) (a : Act) (r : Result) (h : s.result = some r) :
-    (step s a).result = some r := by
+theorem isSome_step (s : TaskSt) (a : Act) (h : s.result.isSome = true) : (step s a).result.isSome = true := by
   cases a <;> simp only [step, finalize]
   all_goals (repeat' split) <;> simp_all
 
-theorem result_stable (acts : List Act) (s : TaskSt) (r : Result) (h : s.result = some r) :
+theorem started_step (s : TaskSt) (a : Act) (h : s.runner ≠ .created) : (step s a).runner ≠ .created := by
+  cases a <;> simp only [step, finalize]
+  all_goals (repeat' split) <;> simp_all
+
+/-- **status only moves forward** -/
+theorem status_forward (s : TaskSt) (a : Act) : rank s ≤ rank (step s a) := by
+  unfold rank
+  cases hr : s.result with
+  | some r =>
+    have h := isSome_step s a (by rw [hr]; rfl)
+    cases hr' : (step s a).result with
+    | some r' => exact Nat.le_refl 2
+    | none => rw [hr'] at h; cases h
+  | none =>
+    cases hr' : (step s a).result with
+    | some r' => simp only; split <;> decide
+    | none =>
+      simp only
+      by_cases hc : s.runner = .created
+      · rw [if_pos hc]; exact Nat.zero_le _
+      · rw [if_neg hc, if_neg (started_step s a hc)]; exact Nat.le_refl 1
+
+/-- what every reachable state satisfies: a task that is done has an outcome, is not running and is not being closed;
+a task that is being closed has the closure stored and is running its clean-up; a finished coroutine left an outcome -/
+def DoneOk (s : TaskSt) : Prop :=
+  (s.done = true → s.result.isSome = true ∧ s.runner ≠ .running ∧ s.closing = false) ∧
+  (s.closing = true → s.result.isSome = true ∧ s.runner = .running) ∧
+  (s.runner = .finished → s.result.isSome = true)
+
+instance (s : TaskSt) : Decidable (DoneOk s) := by unfold DoneOk; infer_instance
+
+theorem doneOk_step (s : TaskSt) (a : Act) (h : DoneOk s) : DoneOk (step s a) := by
+  unfold DoneOk at *
+  cases a <;> simp only [step, finalize]
+  all_goals (repeat' split) <;> simp_all
+  cases hr : s.runner <;> simp_all
+
+/-- **the outcome never changes once the task is done** (`done` is what awaiters wait for) -/
+theorem result_write_once (s : TaskSt) (a : Act) (r : Result) (hd : DoneOk s) (h0 : s.done = true) (h : s.result = some r) :
+    (step s a).result = some r ∧ (step s a).done = true := by
+  have k := hd.1 h0
+  cases a <;> simp only [step, finalize]
+  all_goals (repeat' split) <;> simp_all
+
+theorem result_stable (acts : List Act) (s : TaskSt) (r : Result) (hd : DoneOk s) (h0 : s.done = true) (h : s.result = some r) :
     (run s acts).result = some r := by
   induction acts generalizing s with
   | nil => exact h
-  | cons a as ih => exact ih _ (result_write_once s a r h)
+  | cons a as ih =>
+    have k := result_write_once s a r hd h0 h
+    exact ih _ (doneOk_step s a hd) k.2 k.1
+
+/-- ... for every history from the initial state: whatever the outcome is at a moment at which `done` is set, it is the
+outcome after every continuation -/
+theorem result_stable_from_init (pre post : List Act) (r : Result) (h0 : (run {} pre).done = true)
+    (h : (run {} pre).result = some r) : (run {} (pre ++ post)).result = some r := by
+  have inv : ∀ (l : List Act) (s : TaskSt), DoneOk s → DoneOk (run s l) := by
+    intro l
+    induction l with
+    | nil => intro s h; exact h
+    | cons a as ih => intro s h; exact ih _ (doneOk_step s a h)
+  have e : run {} (pre ++ post) = run (run {} pre) post := by simp [run, List.foldl_append]
+  rw [e]
+  exact result_stable post _ r (inv pre {} (by decide)) h0 h
+
+/-- the stored outcome is **not** stable before `done` is set: between `Task.__close__` storing the closure and the end
+of the payload's clean-up, a clean-up that raises (or returns) replaces it - `Task.status` reads CANCELLED, then FAILED
+(finding F18; the same history replays on the implementation, `harness/c06.py: closed_cleanup`) -/
+theorem result_overwritten_while_closing :
+    (run {} [.start, .close]).result = some .closed ∧ (run {} [.start, .close]).done = false ∧
+    (run {} [.start, .close, .finishError 1]).result = some (.failed 1) := by decide
+
+/-- without that window the stored outcome never changes: for every action that is not the end of a payload that is
+being closed -/
+theorem result_write_once_partial (s : TaskSt) (a : Act) (r : Result) (h : s.result = some r) (hc : s.closing = false) :
+    (step s a).result = some r := by
+  cases a <;> simp only [step, finalize]
+  all_goals (repeat' split) <;> simp_all
 
 /-- **cancel before start prevents any of its code from running** -/
 theorem cancel_created_runs_nothing (acts : List Act) (tok : Int) :
@@ -31,7 +97,8 @@ theorem cancel_created_runs_nothing (acts : List Act) (tok : Int) :
     intro s hr hp a
     cases a <;> simp only [step, finalize]
     all_goals (repeat' split) <;> simp_all
-  have hres := result_stable acts (step {} (.cancel tok)) (.cancelled tok) (by simp [step])
+  have inv2 : ∀ (s : TaskSt), s.result.isSome → ∀ a, (step s a).result.isSome := fun s hr a => isSome_step s a hr
+  have hres := result_stable acts (step {} (.cancel tok)) (.cancelled tok) (by simp [DoneOk, step]) (by simp [step]) (by simp [step])
   refine ⟨?_, hres⟩
   have : ∀ (acts : List Act) (s : TaskSt), s.result.isSome → s.payloadRan = false → (run s acts).payloadRan = false := by
     intro acts
@@ -40,9 +107,7 @@ theorem cancel_created_runs_nothing (acts : List Act) (tok : Int) :
     | cons a as ih =>
       intro s hr hp
       apply ih
-      · cases hr' : s.result with
-        | none => simp [hr'] at hr
-        | some r => simp [result_write_once s a r hr']
+      · exact inv2 s hr a
       · exact inv s hr hp a
   exact this acts _ (by simp [step]) (by simp [step])
 
@@ -60,20 +125,19 @@ theorem cancel_suspended (s : TaskSt) (tok : Int) (h1 : s.runner = .running) (h2
 
 /-- a done task has a result (awaiters never see "no outcome") -/
 theorem done_has_result (acts : List Act) : (run {} acts).done = true → (run {} acts).result.isSome := by
-  have : ∀ (acts : List Act) (s : TaskSt), (s.done = true → s.result.isSome) → ((run s acts).done = true → (run s acts).result.isSome) := by
-    intro acts
-    induction acts with
+  have inv : ∀ (l : List Act) (s : TaskSt), DoneOk s → DoneOk (run s l) := by
+    intro l
+    induction l with
     | nil => intro s h; exact h
-    | cons a as ih =>
-      intro s h
-      apply ih
-      cases a <;> simp only [step, finalize]
-      all_goals (repeat' split) <;> simp_all
-  exact this acts {} (by simp)
+    | cons a as ih => intro s h; exact ih _ (doneOk_step s a h)
+  intro h
+  exact ((inv acts {} (by decide)).1 h).1
 
 /-- the task/scope skeletons (`payload_wrapper`, `cancel`, `__close__`, `status`, ...) are pinned -/
 theorem task_skeletons_pinned : USim.Gen.Scope.skeletonsMatched = 33 := rfl
 
 example : (run {} [.start, .cancel 7, .cancel 8, .deliverCancel, .deliverCancel, .close]).result = some (.cancelled 7) := by decide
+example : (run {} [.start, .cancel 7, .cancel 8, .swallowCancel, .deliverCancel, .close]).result = some (.cancelled 8) := by decide
+example : DoneOk (run {} [.start, .close, .cleanupDone]) ∧ (run {} [.start, .close, .cleanupDone]).done = true := by decide
 
 end USim.Prim.Task
